@@ -116,7 +116,7 @@ def admissible(points, normals, src, tgt, max_vox, max_angle_deg):
 class C20(Property):
     ID = "C20"
     SESSIONS = ["s0"]
-    RUNS = {"quick": (90, 150), "thorough": (1500, 3000)}
+    RUNS = {"quick": (300, 500), "thorough": (6000, 10000)}
     COMPONENTS = {"real": ["cryocat.memthick.measure_thickness_cpu / process_matches_cpu2cpu (working tree of /repo)",
                            "Python source of the numba kernel find_matches_parallel (.py_func)",
                            "compiled kernel with NUMBA_NUM_THREADS=1 (cross-check only)", "scipy KDTree", "numpy"],
